@@ -1,5 +1,6 @@
 (* C18 — Synthesised dataclass constructors equal the ones CPython generates.  Property theorems only.
-   Model/C18_dataclass.v: [g_*] is extensions/dataclasses.py, [py_*] is CPython 3.12's dataclasses module.
+   Model/C18_dataclass.v: [g_*] is extensions/dataclasses.py (after the repairs of findings F1, F5, F8, F9),
+   [py_*] is CPython 3.12's dataclasses module.
    A module is a table of classes in definition order; [py_eval_table t = Some e] says CPython executes it. *)
 From Coq Require Import List Arith Bool.
 From Verif Require Import Lib.Sexp Model.C18_dataclass Proofs.C18_dataclass.
@@ -7,8 +8,9 @@ Import ListNotations.
 Open Scope list_scope. Open Scope nat_scope.
 
 (* For ALL class tables (any number of classes, bodies, MRO lists): a decorated class without a hand-written __init__ gets
-   from Griffe exactly the __init__ CPython generates (parameter names, order, kind, required-ness; or none at all) unless
-   it satisfies one of the eight decidable known-gap predicates G1..G8 (findings C18-F1..F8). *)
+   from Griffe exactly the __init__ CPython generates (parameter names, order, kind, required-ness; or none at all, for
+   @dataclass(init=False)) unless it satisfies one of the five decidable known-gap predicates G2 G3 G4 G6 G7
+   (findings C18-F2, F3, F4, F6, F7). *)
 Theorem C18_init_eq_cpython_modulo_known : forall t e i c,
   py_eval_table t = Some e -> nth_error t i = Some c ->
   decorated c = true -> c_hw c = None ->
@@ -18,34 +20,22 @@ Proof. exact init_eq_cpython_modulo_known. Qed.
 Print Assumptions C18_init_eq_cpython_modulo_known.
 
 (* The unqualified statement is false of the faithful model (and of the code: the same witnesses are replayed on the
-   implementation on every run).  Each witness satisfies exactly one gap predicate, so none of them is redundant. *)
-Theorem C18_init_eq_cpython_refuted_F1 : refutes w1 1 [true; false; false; false; false; false; false; false].
-Proof. exact refuted_F1. Qed.
-Print Assumptions C18_init_eq_cpython_refuted_F1.
-Theorem C18_init_eq_cpython_refuted_F1_own : refutes w1 0 [true; false; false; false; false; false; false; false].
-Proof. exact refuted_F1_own. Qed.
-Print Assumptions C18_init_eq_cpython_refuted_F1_own.
-Theorem C18_init_eq_cpython_refuted_F2 : refutes w2 1 [false; true; false; false; false; false; false; false].
+   implementation on every run).  Each witness satisfies exactly one gap predicate ([G2; G3; G4; G6; G7]), so none is redundant. *)
+Theorem C18_init_eq_cpython_refuted_F2 : refutes w2 1 [true; false; false; false; false].
 Proof. exact refuted_F2. Qed.
 Print Assumptions C18_init_eq_cpython_refuted_F2.
-Theorem C18_init_eq_cpython_refuted_F3 : refutes w3 1 [false; false; true; false; false; false; false; false].
+Theorem C18_init_eq_cpython_refuted_F3 : refutes w3 1 [false; true; false; false; false].
 Proof. exact refuted_F3. Qed.
 Print Assumptions C18_init_eq_cpython_refuted_F3.
-Theorem C18_init_eq_cpython_refuted_F4 : refutes w4 1 [false; false; false; true; false; false; false; false].
+Theorem C18_init_eq_cpython_refuted_F4 : refutes w4 1 [false; false; true; false; false].
 Proof. exact refuted_F4. Qed.
 Print Assumptions C18_init_eq_cpython_refuted_F4.
-Theorem C18_init_eq_cpython_refuted_F5 : refutes w5 0 [false; false; false; false; true; false; false; false].
-Proof. exact refuted_F5. Qed.
-Print Assumptions C18_init_eq_cpython_refuted_F5.
-Theorem C18_init_eq_cpython_refuted_F6 : refutes w6 3 [false; false; false; false; false; true; false; false].
+Theorem C18_init_eq_cpython_refuted_F6 : refutes w6 3 [false; false; false; true; false].
 Proof. exact refuted_F6. Qed.
 Print Assumptions C18_init_eq_cpython_refuted_F6.
-Theorem C18_init_eq_cpython_refuted_F7 : refutes w7 0 [false; false; false; false; false; false; true; false].
+Theorem C18_init_eq_cpython_refuted_F7 : refutes w7 0 [false; false; false; false; true].
 Proof. exact refuted_F7. Qed.
 Print Assumptions C18_init_eq_cpython_refuted_F7.
-Theorem C18_init_eq_cpython_refuted_F8 : refutes w8 0 [false; false; false; false; false; false; false; true].
-Proof. exact refuted_F8. Qed.
-Print Assumptions C18_init_eq_cpython_refuted_F8.
 
 (* Single inheritance (the MRO of every class is its base followed by the base's MRO; undecorated classes may sit in
    between): CPython's accumulated __dataclass_fields__ IS the flat reverse-MRO collection, so the multiple-inheritance
@@ -54,11 +44,11 @@ Theorem C18_single_inheritance_no_F6 : forall t e, py_eval_table t = Some e -> l
   forall i c, nth_error t i = Some c -> decorated c = true -> G6 t e i c = false.
 Proof. exact single_inheritance_flat. Qed.
 Print Assumptions C18_single_inheritance_no_F6.
-(* ... and the constructor equality needs only the seven syntactic gap predicates. *)
+(* ... and the constructor equality needs only the four syntactic gap predicates. *)
 Theorem C18_init_eq_cpython_single_inheritance : forall t e i c,
   py_eval_table t = Some e -> linear t = true -> nth_error t i = Some c ->
   decorated c = true -> c_hw c = None ->
-  G1 t c = false -> G2 t c = false -> G3 t c = false -> G4 t c = false -> G5 t c = false -> G7 t c = false -> G8 t c = false ->
+  G2 t c = false -> G3 t c = false -> G4 t c = false -> G7 t c = false ->
   g_init_member t c = py_init_member e i c.
 Proof. exact init_eq_cpython_single_inheritance. Qed.
 Print Assumptions C18_init_eq_cpython_single_inheritance.
@@ -84,15 +74,11 @@ Theorem C18_non_dataclass_untouched : forall t e i c, decorated c = false -> c_h
 Proof. exact non_dataclass_untouched. Qed.
 Print Assumptions C18_non_dataclass_untouched.
 
-(* A class inheriting a dataclass is labelled as one -- provided it has no __init__ of its own ... *)
-Theorem C18_inherited_label : forall t c b, c_hw c = None -> In b (mro_classes t c) -> decorated b = true -> g_label t c = true.
+(* A class inheriting a dataclass is labelled as one (unconditionally since the repair of C18-F9) ... *)
+Theorem C18_inherited_label : forall t c b, In b (mro_classes t c) -> decorated b = true -> g_label t c = true.
 Proof. exact inherited_label. Qed.
 Print Assumptions C18_inherited_label.
-(* ... in general the label equals dataclasses.is_dataclass outside G10 (finding C18-F9), which is a real exception: *)
-Theorem C18_inherited_label_modulo_known : forall t c, G10 t c = false -> g_label t c = py_is_dataclass t c.
-Proof. exact inherited_label_modulo_known. Qed.
-Print Assumptions C18_inherited_label_modulo_known.
-Theorem C18_inherited_label_refuted_F9 : exists t c, In c t /\ existsb decorated (mro_classes t c) = true /\
-  py_is_dataclass t c = true /\ g_label t c = false /\ G10 t c = true.
-Proof. exact label_refuted_F9. Qed.
-Print Assumptions C18_inherited_label_refuted_F9.
+(* ... and in general the label is exactly dataclasses.is_dataclass. *)
+Theorem C18_label_eq_is_dataclass : forall t c, g_label t c = py_is_dataclass t c.
+Proof. exact label_eq_is_dataclass. Qed.
+Print Assumptions C18_label_eq_is_dataclass.
